@@ -684,8 +684,8 @@ def translate_assembly(tr, igm_tree):
         if n not in stmts:
             bail(fn, f"calculate_thermo_cont: statement `{n}` not found")
     p0 = stmts[0]
-    if p0 != ("params = _ThermoParams(default_sigma_r=species.sn, T=float(temp.to('K')) if isinstance(temp, Temperature) "
-              "else temp, **kwargs)"):
+    if p0 not in [("params = _ThermoParams(default_sigma_r=species.sn, T=float(temp.to('K')) if isinstance(temp, Temperature) "
+                   f"else {alt}, **kwargs)") for alt in ("temp", "float(temp)")]:     # float(x) is the identity of the model
         bail(fn, "calculate_thermo_cont: construction of params changed")
     allowed_prefix = ("params = ", "if species.n_atoms == 0:", "if species.frequencies is None and species.n_atoms > 1:",
                       "logger.", "S = ", "U = ", "H = ", "H.method_str = ", "species.energies.append(", "G = ",
@@ -769,6 +769,16 @@ def sn_guard(species_tree, symm_tree):
             and ast.unparse(s.func) not in ("species.translate", "species.is_linear")]
     if muts:
         bail(sy, f"symmetry_number calls {muts}", "autode/thermochemistry/symmetry.py")
+    for st in ast.walk(sy):
+        tg = st.targets if isinstance(st, ast.Assign) else [st.target] if isinstance(st, (ast.AugAssign, ast.AnnAssign)) else \
+            st.targets if isinstance(st, ast.Delete) else []
+        for t in tg:
+            for sub in ast.walk(t):
+                if isinstance(sub, (ast.Attribute, ast.Subscript)):
+                    bail(st, f"symmetry_number assigns to `{ast.unparse(t)}` (may change the structure)", "autode/thermochemistry/symmetry.py")
+        if isinstance(st, ast.Call) and isinstance(st.func, ast.Attribute) and st.func.attr in ("translate", "rotate", "reorder_atoms") \
+                and ast.unparse(st) != "species.translate(vec=-species.com)":
+            bail(st, f"symmetry_number calls `{ast.unparse(st)[:60]}`", "autode/thermochemistry/symmetry.py")
     return cutoff, ast.unparse(sp) + ast.unparse(first)
 
 
